@@ -11,11 +11,12 @@ CONSTANTS
   RIC = TRUE
   GasCap = 2
   InitEpochs = {0}
-  InitPers = {2, 3, 4}
+  InitPers = {2, 3}
   ForeignMax = 2
   ExportOn = TRUE
   MaxOps = 4
-  SampleMod = 12
+  SampleMod = 40
+  ImportantMod = 4
 INIT MInit
 NEXT MNext
 VIEW view
